@@ -127,11 +127,13 @@ class Executor:
     def run_plan(
         self, plan: ExecutionPlan, ctx: Context, stop_on_first_error: bool = False
     ):
+        # N.B. This must be set before entering the `try` block because the
+        # abort handler below uses it.
+        start = time.time()
         try:
             self._reset()
             plan.reset_waiting_on()
             self._num_tasks_to_run = plan.num_tasks_to_run
-            start = time.time()
 
             # 1. Print out any cached tasks.
             for cached_task in plan.cached_tasks:
